@@ -43,7 +43,7 @@ class Scen:
         cp = sb.write_conf(conf)
         return sb, cp
 
-    def run(self, plan=None, extra_env=None, timeout=30):
+    def run(self, plan=None, extra_env=None, timeout=30, wrapper=None):
         sb, cp = self.build()
         log = os.path.join(sb.root, 'trace.log')
         env = dict(PIN)
@@ -56,7 +56,7 @@ class Scen:
             env.update(extra_env)
         args = ['-'] if self.stdin else []
         stdin = self.msgs[0][2] if self.stdin else None
-        rc, out, err = sb.run(args, conf=cp, stdin=stdin, env=env, preload=SHIM, timeout=timeout)
+        rc, out, err = sb.run(args, conf=cp, stdin=stdin, env=env, preload=SHIM, timeout=timeout, wrapper=wrapper)
         trace = []
         if os.path.exists(log):
             with open(log, 'r', errors='replace') as f:
@@ -99,10 +99,16 @@ def corpus(tier):
         # two rewrites of the same message in one rule, and a rewrite after a move
         ('label_addheader', 'label "L" add-header "X-Added" "v"'), ('addheader_twice_move', 'add-header "X-A" "1" add-header "X-B" "2" move "DST"'),
         ('move_label', 'move "DST" label "L"'),
+        # a rule kept by pass, then a rule whose CONDITION does I/O (stat for the file date, fork / waitpid for the command): a failure
+        # there is a failure of the run like any other
+        ('label_pass_datemove', 'label "L" pass\n match date modified > 1 seconds move "DST"'),
+        ('addheader_pass_commandmove', 'add-header "X-A" "b" pass\n match command "true" move "DST"'),
+        # commands among the actions: fork / waitpid (and the descriptors of exec stdin) are I/O calls like the others
+        ('exec_move', 'exec "true" move "DST"'), ('label_execstdin', 'label "L" exec stdin { "sh" "-c" "cat >/dev/null" }'),
     ]
     for rid, rule in rules:
         for xdev in (False, True):
-            if xdev and rid in ('label', 'addheader', 'discard', 'flags', 'label_addheader'):
+            if xdev and rid in ('label', 'addheader', 'discard', 'flags', 'label_addheader', 'label_pass_datemove', 'addheader_pass_commandmove', 'label_execstdin'):
                 continue
             for nmsg, big in ((1, False), (2, False)) if tier == 'quick' else ((1, False), (2, False), (3, False), (1, True)):
                 k += 1
